@@ -355,7 +355,7 @@ theorem Inv.step (own : String) {s : St} (hi : Inv s) (op : Op) : Inv (step own 
     · simp only [Qx.C12.step, h, if_true]
       split
       · exact ⟨hi.entries, hi.pres, hi.inner⟩
-      · exact hi
+      · exact ⟨hi.entries, hi.pres, hi.inner⟩
     · simp only [Qx.C12.step, h, if_false]
       split
       · exact ⟨List.nodup_nil, List.nodup_nil, by intro p hp; cases hp⟩
@@ -478,5 +478,160 @@ theorem applyItems_no_result (e : Entries) (items : List Item) :
   induction items generalizing e with
   | nil => rfl
   | cons it rest ih => simp only [applyItems, List.filter_append, itemSignal_no_result, ih, List.append_nil]
+
+/-! ### session-level exactness (the property's own session boundaries, `traceS`) -/
+
+/-- what is carried along a run: the manager's `inSession` is the history's, an established session always
+lies on an intact SM chain (by the environment assumption), and on an intact chain the cache is what the
+session-level specification prescribes -/
+structure SessInv (s : St) (c : Chain) (E : List Ev) : Prop where
+  ins : s.inSession = c.inSession
+  live : c.inSession = true → c.smChain = true
+  view : c.smChain = true →
+    s.entries = specView E ∧ ∀ b r, lookupKey r (resTable s.presences b) = specPres E b r
+
+theorem SessInv.init : SessInv init {} [] :=
+  ⟨rfl, (by intro h; cases h), fun _ => ⟨rfl, fun _ _ => rfl⟩⟩
+
+/-- ops other than session events: code-level and session-level classification agree, the chain does not move -/
+theorem SessInv.step_plain (own : String) {s : St} {c : Chain} {E : List Ev} (h : SessInv s c E) (op : Op)
+    (hin : (step own s op).1.inSession = s.inSession) (hc : c.step op = c)
+    (hcl : classifyS own s op = classify own s op) :
+    SessInv (step own s op).1 (c.step op) (E ++ [classifyS own s op]) := by
+  rw [hc]
+  refine ⟨hin.trans h.ins, h.live, ?_⟩
+  intro hs
+  have hv := h.view hs
+  constructor
+  · rw [step_entries, specView_snoc, hcl, hv.1]
+  · intro b r
+    rw [step_pres, specPres_snoc, hcl, hv.2]
+
+theorem SessInv.step (own : String) {s : St} {c : Chain} {E : List Ev} (h : SessInv s c E) (op : Op)
+    (henv : ∀ a, op = .connected .resumed a → c.smChain = true) :
+    SessInv (step own s op).1 (c.step op) (E ++ [classifyS own s op]) := by
+  cases op with
+  | response k sender ok items =>
+    apply h.step_plain own _ _ rfl rfl
+    simp only [Qx.C12.step]
+    cases delivered own s k sender <;> cases ok <;> rfl
+  | rosterIq type sender id items =>
+    apply h.step_plain own _ _ rfl rfl
+    simp only [Qx.C12.step]
+    cases authorised own sender <;> cases type <;> rfl
+  | presence sender type status =>
+    apply h.step_plain own _ _ rfl rfl
+    simp only [Qx.C12.step]
+    by_cases hb : bare sender = ""
+    · simp [hb]
+    · cases type <;> simp [hb]
+  | connected sm auth =>
+    have hin : (Qx.C12.step own s (.connected sm auth)).1.inSession = true := by
+      simp only [Qx.C12.step]
+      by_cases hr : sm = .resumed
+      · simp only [hr, if_true]; split <;> rfl
+      · simp only [hr, if_false]; split <;> rfl
+    by_cases hr : sm = .resumed
+    · subst hr
+      have hs := henv auth rfl
+      have hv := h.view hs
+      have hcl : classify own s (.connected .resumed auth) = .other := by simp [classify]
+      have hcs : classifyS own s (.connected .resumed auth) = .other := by simp [classifyS, classify]
+      refine ⟨by rw [hin]; simp [Chain.step], by intro _; simpa [Chain.step] using hs, ?_⟩
+      intro _
+      constructor
+      · rw [step_entries, specView_snoc, hcl, hcs, hv.1]
+      · intro b r
+        rw [step_pres, specPres_snoc, hcl, hcs, hv.2]
+    · have hcl : classify own s (.connected sm auth) = .clear := by simp [classify, hr]
+      have hcs : classifyS own s (.connected sm auth) = .clear := by simp [classifyS, classify, hr]
+      refine ⟨by rw [hin]; simp [Chain.step, hr], by intro _; simp [Chain.step, hr], ?_⟩
+      intro _
+      constructor
+      · rw [step_entries, specView_snoc, hcl, hcs]; rfl
+      · intro b r
+        rw [step_pres, specPres_snoc, hcl, hcs]; rfl
+  | disconnected en cr =>
+    have hin : (Qx.C12.step own s (.disconnected en cr)).1.inSession = false := by
+      cases hi : s.inSession <;> cases en <;> cases cr <;> simp [Qx.C12.step, hi, St.cleared]
+    have hcs : classifyS own s (.disconnected en cr) = .other := rfl
+    refine ⟨by rw [hin]; simp [Chain.step], by intro hc; simp [Chain.step] at hc, ?_⟩
+    intro hs
+    have hs' : c.smChain = true ∧ (c.inSession = true → en = true) := by
+      have h0 : c.smChain = true ∧ (c.inSession = false ∨ en = true) := by simpa [Chain.step] using hs
+      refine ⟨h0.1, fun hci => ?_⟩
+      rcases h0.2 with h1 | h1
+      · rw [hci] at h1; cases h1
+      · exact h1
+    have hv := h.view hs'.1
+    have hcl : classify own s (.disconnected en cr) = .other := by
+      have : (s.inSession && !en) = false := by
+        rw [h.ins]
+        cases hci : c.inSession
+        · rfl
+        · simp [hs'.2 hci]
+      simp [classify, this]
+    constructor
+    · rw [step_entries, specView_snoc, hcl, hcs, hv.1]
+    · intro b r
+      rw [step_pres, specPres_snoc, hcl, hcs, hv.2]
+
+theorem chainFrom_cons (c : Chain) (op : Op) (ops : List Op) :
+    chainFrom c (op :: ops) = chainFrom (c.step op) ops := rfl
+
+theorem SessInv.run (own : String) (ops : List Op) {s : St} {c : Chain} {E : List Ev}
+    (h : SessInv s c E) (henv : resumesOkFrom c ops = true) :
+    SessInv (run own s ops).1 (chainFrom c ops) (E ++ traceS own s ops) := by
+  induction ops generalizing s c E with
+  | nil =>
+    show SessInv s c (E ++ [])
+    rw [List.append_nil]
+    exact h
+  | cons op rest ih =>
+    simp only [resumesOkFrom, Bool.and_eq_true] at henv
+    have h1 : ∀ a, op = .connected .resumed a → c.smChain = true := by
+      intro a ha; subst ha; exact henv.1
+    have h2 := ih (h.step own op h1) henv.2
+    rw [run_cons, chainFrom_cons]
+    simpa [traceS] using h2
+
+/-- the environment assumption, spelled out: at every resumed connect the chain before it is intact -/
+theorem resumesOkFrom_iff (c : Chain) (ops : List Op) :
+    resumesOkFrom c ops = true ↔
+      ∀ pre a post, ops = pre ++ Op.connected .resumed a :: post → (chainFrom c pre).smChain = true := by
+  induction ops generalizing c with
+  | nil =>
+    constructor
+    · intro _ pre a post h; simp at h
+    · intro _; rfl
+  | cons op rest ih =>
+    simp only [resumesOkFrom, Bool.and_eq_true]
+    constructor
+    · rintro ⟨h1, h2⟩ pre a post heq
+      cases pre with
+      | nil =>
+        simp only [List.nil_append, List.cons.injEq] at heq
+        rw [heq.1] at h1
+        exact h1
+      | cons p pre' =>
+        simp only [List.cons_append, List.cons.injEq] at heq
+        rw [chainFrom_cons, ← heq.1]
+        exact (ih (c.step op)).mp h2 pre' a post heq.2
+    · intro h
+      constructor
+      · cases op with
+        | connected sm auth =>
+          cases sm with
+          | resumed => exact h [] auth rest rfl
+          | none_ => rfl
+          | new => rfl
+        | disconnected en cr => rfl
+        | response k sender ok items => rfl
+        | rosterIq type sender id items => rfl
+        | presence sender type status => rfl
+      · apply (ih (c.step op)).mpr
+        intro pre a post heq
+        have := h (op :: pre) a post (by rw [heq]; rfl)
+        simpa [chainFrom_cons] using this
 
 end Qx.C12
